@@ -121,9 +121,11 @@ func worker(args []string) int {
 	if *budget > 0 {
 		r.deadline = time.Now().Add(*budget)
 	}
-	if f := os.NewFile(3, "announce"); f != nil {
-		if _, err := f.Stat(); err == nil {
-			r.announce = f
+	if os.Getenv("MC_ANNOUNCE_FD") == "3" {
+		if f := os.NewFile(3, "announce"); f != nil {
+			if _, err := f.Stat(); err == nil {
+				r.announce = f
+			}
 		}
 	}
 	// watchdog: a case that runs longer than watchdogLimit is a hang.
@@ -294,7 +296,7 @@ func runWorker(self, id, tier string, shard, of int, seed int64, budget time.Dur
 		args = append(args, "--family", only)
 	}
 	cmd := exec.Command(self, args...)
-	cmd.Env = append(os.Environ(), "TZ=UTC", "GOMAXPROCS=2", "GOTRACEBACK=single")
+	cmd.Env = append(os.Environ(), "TZ=UTC", "GOMAXPROCS=2", "GOTRACEBACK=single", "MC_ANNOUNCE_FD=3")
 	pr, pw, _ := os.Pipe()
 	cmd.ExtraFiles = []*os.File{pw}
 	var stderr bytes.Buffer
